@@ -825,7 +825,7 @@ func TestC24(t *testing.T) {
 		}
 	}()
 
-	n := r.N(50_000, 2_000_000)
+	n := r.N(50_000, 1_000_000)
 	const block = 250
 	blocks := (n + block - 1) / block
 	ev := func(name string) { r.Event(name, 1) }
@@ -908,7 +908,7 @@ func TestC24(t *testing.T) {
 			}
 			if err == nil {
 				get, err = readOne(w.br, reqGET)
-				if err != nil && strings.Contains(err.Error(), "response head") {
+				if err != nil && strings.Contains(err.Error(), "response head") && strings.Contains(err.Error(), "malformed HTTP") {
 					// what follows the HEAD response head is not a response: the HEAD response carried a body
 					r.Violation(i, "head-has-body", fmt.Sprintf("[%s %s Range=%q] after the HEAD response (status %d) the stream does not continue with a response: %v", cfg.name, f.name, q.rng, head.status, err), map[string]any{"range": q.rng, "file": f.name, "config": cfg.name})
 					closeConn(cfg, false)
@@ -916,7 +916,11 @@ func TestC24(t *testing.T) {
 				}
 			}
 			if err != nil {
-				r.Violation(i, "response-unreadable", fmt.Sprintf("[%s %s Range=%q If-Modified-Since=%q Accept-Encoding=%q] %v", cfg.name, f.name, q.rng, q.ims, q.ae, err),
+				key := "response-unreadable"
+				if strings.Contains(err.Error(), "response body") && strings.Contains(err.Error(), "unexpected EOF") {
+					key = "body-shorter-than-content-length"
+				}
+				r.Violation(i, key, fmt.Sprintf("[%s %s Range=%q If-Modified-Since=%q Accept-Encoding=%q] %v", cfg.name, f.name, q.rng, q.ims, q.ae, err),
 					map[string]any{"range": q.rng, "file": f.name, "config": cfg.name, "accept_encoding": q.ae, "if_modified_since": q.ims})
 				closeConn(cfg, false)
 				continue
